@@ -19,5 +19,22 @@ GROUPS = [
          loop_contracts=True, loops=["ep_speech_count.full", "ep_speech_count.partial"], min_loop_steps=2, allow_no_body=NOBODY),
     dict(name="ep_linearize", harness=H, enforce="ep_linearize", defines=["EP_MAXLEN=3", "EP_FS=2"], allow_no_body=NOBODY, min_postconditions=3, unwind=14),
     dict(name="endpointer_process", harness=H, enforce="endpointer_process", defines=GEO,
-         replace=["vad_classify", "ep_push", "ep_pop", "ep_speech_count", "ep_full"], allow_no_body=NOBODY, min_postconditions=12),
+         replace=["vad_classify", "ep_push", "ep_pop", "ep_speech_count", "ep_full"], allow_no_body=NOBODY, min_postconditions=12,
+         backends=[["--sat-solver", "cadical"]], timeout={"quick": 900, "thorough": 1800}),
 ]
+
+ENFORCED_ELSEWHERE = {}
+ASSUMPTIONS = [
+    "vad_classify (WebRTC VAD) returns 0 or 1 and touches nothing the endpointer owns; vad_frame_size/vad_sample_rate are ghost constants",
+    "queue geometry is concrete per run: content-level contracts on (maxlen, frame_size) = (4, 4) [ep_linearize (3, 2)]; index-level counting loop with symbolic maxlen <= 3000",
+    "times are not NaN (x >= 0) and frame_length in (0, 1]",
+    "ghost counters verif_pushed / verif_dropped are incremented by ghost statements next to every timestamp / qstart_time update: 'qstart_time is the stream time of the oldest queued frame' is the same fold of frame_length over verif_dropped (hand lemma)",
+    "memcpy/memmove are byte loops in the verification build (ssw_ghost.h)",
+]
+HAND_LEMMAS = ["no gaps/repeats: n == pushed - dropped is an invariant and every returned frame is the oldest queued one (pop), so frames leave the queue in arrival order exactly once",
+               "speech_start + frame_length == qstart_time after the triggering call, where qstart_time is the fold of frame_length over the frames dropped or returned so far: speech_start is the stream position of the first returned frame"]
+NOT_COVERED = ["endpointer_end_stream (its drain loop and trailing partial frame; seeded change C15_A lives there)", "endpointer_init float rounding of the window", "vad_classify itself"]
+CLAIM = dict(
+    text="The look-back ring queue and the endpointing state machine are proved against contracts: ep_push/ep_pop implement a FIFO (slot written, slot dropped only when full, written bytes equal the input frame, all other slots unchanged, pointer returned = oldest frame), ep_linearize preserves queue order, ep_speech_count reads only live memory and terminates for any queue length <= 3000 (and returns the exact count on small queues, bounded), endpointer_process pushes exactly once, pops at most once, starts only when MORE than start_frames are speech, ends once FEWER than end_frames are, returns a frame iff in speech or just left, and ties speech_start/speech_end to the queue time.",
+    note="concrete small geometry for content-level facts; VAD assumed; endpointer_end_stream not yet under contract; trusted: CBMC 6.11 (cadical back end for endpointer_process)",
+    technique="CBMC function + loop contracts (goto-instrument --dfcc), callees replaced by their contracts; ghost counters injected from annotation comments; bounded unwinding for the exact count")
